@@ -431,7 +431,7 @@ _EXTRA_FLOORS = {
     "C15": {"deep-types": 90, "field-name-types": 1000},
     "C16": {"stdout-rows-read": 1000},
     "C17": {"fixed-histories": 20},
-    "C18": {"fs-fault-states": 75},
+    "C18": {"fs-fault-states": 75, "extended-int-pool-calls": 2000},
     "C19": {"scalar-matrix-cases": 1200, "scalar-matrix-table-cases": 1200, "wide-value-cases": 700},
     "C20": {"deep-values": 1000, "print-histories": 1000},
 }
